@@ -75,6 +75,20 @@ package fiber
 // binder to WithAutoHandling and binding fails, the response status (sentStatus))
 //@   modifies r.messages, elems(r.messages), DefaultCtx.bind, heap(MD_string_string), heap(MV_string_string), heap(E_uint8), sentStatus
 //@   modifies heap(H_binder_QueryBinding_EnableSplitting), heap(H_binder_FormBinding_EnableSplitting)
+// "The old input recorded is exactly the bound data of THIS request": the map the request data is bound into is made by
+// this very call (not allocated when WithInput was entered: it cannot be a map that lives with the pooled Redirect, the
+// context or the app and was filled by an earlier request) and is still empty when the binder gets it; the binder is the
+// one of this redirect's own context; and the map that is bound is the map whose entries are recorded (loop 1 ranges over
+// `oldInput`, invariants added-are-fields / every-seen-field-added). `unbox(out, Map)`: the payload of the `any` the binder
+// receives (the engine names payload types only through a named type; Map stands for "a Go map").
+//@   atcall (*Bind).Form: [C12 C05] old-input-map-empty-before-binding: forallS(f, !indom(oldInput, f))
+//@   atcall (*Bind).Form: [C12 C05] old-input-map-made-by-this-call: oldInput != nil && !old(allocated(oldInput))
+//@   atcall (*Bind).Form: [C12] binds-into-the-recorded-map: unbox(out, Map) == oldInput
+//@   atcall (*Bind).Form: [C12] binds-data-of-this-request: b == last((*DefaultCtx).Bind) && typeis(b.ctx, *DefaultCtx) && as(b.ctx, *DefaultCtx) == r.c
+//@   atcall (*Bind).Query: [C12 C05] old-input-map-empty-before-binding: forallS(f, !indom(oldInput, f))
+//@   atcall (*Bind).Query: [C12 C05] old-input-map-made-by-this-call: oldInput != nil && !old(allocated(oldInput))
+//@   atcall (*Bind).Query: [C12] binds-into-the-recorded-map: unbox(out, Map) == oldInput
+//@   atcall (*Bind).Query: [C12] binds-data-of-this-request: b == last((*DefaultCtx).Bind) && typeis(b.ctx, *DefaultCtx) && as(b.ctx, *DefaultCtx) == r.c
 //@   loop 1
 //@     invariant earlier-kept: len(r.messages) >= old(len(r.messages)) && forall(k, 0, old(len(r.messages)), r.messages[k].key == old(r.messages[k].key) && r.messages[k].value == old(r.messages[k].value) && r.messages[k].level == old(r.messages[k].level) && r.messages[k].isOldInput == old(r.messages[k].isOldInput))
 //@     invariant added-are-old-input: forall(k, old(len(r.messages)), len(r.messages), r.messages[k].isOldInput && r.messages[k].level == 0)
@@ -101,6 +115,11 @@ package fiber
 //@   loop 1
 //@     invariant none-so-far: 0 <= i && i <= len(s) && forall(k, 0, i, s[k] != '\r' && s[k] != '\n')
 //@   ensures exact: result == !noCRLF(s)
+// (C07, control bytes; proposed fix "cookie name, path and domain with a control byte": Cookie does not send a cookie whose
+// name, path or domain has a control byte other than HTAB - fasthttp writes the four fields verbatim into the Set-Cookie
+// line - and ClearCookie skips such a name. The VALUE is only checked for CR/LF: the flash cookie is raw MessagePack, the
+// existing tests pin that format - clause no-control-byte-in-the-cookie-value FAILS, known finding.)
+//@ macro sendableCookie(ck) = cleanValue(ck.Name) && noCRLF(ck.Value) && cleanValue(ck.Path) && cleanValue(ck.Domain)
 //@ func (*DefaultCtx).Cookie
 //@   props C12 C07
 //@   modifies jarHas, jarVal, jarAttr, ckKey, ckVal, ckAttr, jcPath, jcExp, jcPooled
@@ -108,7 +127,10 @@ package fiber
 //@   atcall @fasthttp.(*Cookie).SetExpire: session-only-no-expires: !cookie.SessionOnly
 //@   atcall @fasthttp.(*ResponseHeader).SetCookie: name-and-value-as-given: ckKey[fcookie] == old(cookie.Name) && ckVal[fcookie] == old(cookie.Value)
 //@   atcall @fasthttp.(*ResponseHeader).SetCookie: [C07] cookie-fields-one-line: noCRLF(old(cookie.Name)) && noCRLF(old(cookie.Value)) && noCRLF(old(cookie.Path)) && noCRLF(old(cookie.Domain))   // requested by cw-C07; replay/fixed/c07_cookie_crlf_test.go
-//@   ensures in-response: oneLineCookie(cookie) ==> jarHas[respH(c)][cookie.Name] && jarVal[respH(c)][cookie.Name] == cookie.Value
+//@   atcall @fasthttp.(*ResponseHeader).SetCookie: [C07] no-control-byte-in-the-cookie-name-path-or-domain: cleanValue(ckKey[fcookie]) && cleanValue(jcPath[fcookie]) && cleanValue(attrDomain(ckAttr[fcookie]))
+//@   atcall @fasthttp.(*ResponseHeader).SetCookie: [C07] no-control-byte-in-the-cookie-value: cleanValue(ckVal[fcookie])   // FAILS (known finding, replay/known/c07_cookie_ctl_test.go)
+//@   ensures in-response: sendableCookie(cookie) ==> jarHas[respH(c)][cookie.Name] && jarVal[respH(c)][cookie.Name] == cookie.Value
+//@   ensures [C07] not-sent-otherwise: !sendableCookie(cookie) ==> jarHas == old(jarHas) && jarVal == old(jarVal) && jarAttr == old(jarAttr)
 //@   ensures others-kept: forallS(k, k != cookie.Name ==> jarHas[respH(c)][k] == old(jarHas[respH(c)][k]) && jarVal[respH(c)][k] == old(jarVal[respH(c)][k]) && jarAttr[respH(c)][k] == old(jarAttr[respH(c)][k]))
 //@   ensures other-headers-kept: forallI(h, h != respH(c) ==> jarHas[h] == old(jarHas[h]) && jarVal[h] == old(jarVal[h]) && jarAttr[h] == old(jarAttr[h]))
 //@   ensures session-only-no-lifetime: cookie.SessionOnly ==> !called(@fasthttp.(*Cookie).SetMaxAge) && !called(@fasthttp.(*Cookie).SetExpire)
@@ -117,10 +139,11 @@ package fiber
 //@ func (*DefaultCtx).ClearCookie
 //@   props C12 C07
 //@   atcall @fasthttp.(*ResponseHeader).DelClientCookie: [C07] name-one-line: noCRLF(key)   // requested by cw-C07 (key: the callee's formal = key[i])
+//@   atcall @fasthttp.(*ResponseHeader).DelClientCookie: [C07] no-control-byte-in-the-cookie-name: cleanValue(key)
 //@   modifies jarHas, jarVal, jarAttr, jarVisits, jarVisitAtNext
 //@   loop 1
-//@     invariant expired-so-far: forall(k, 0, rangeindex + 1, noCRLF(key[k]) ==> jarHas[respH(c)][key[k]] && attrExpired(jarAttr[respH(c)][key[k]]))
-//@   ensures named-cookies-expired: forall(k, 0, len(key), noCRLF(key[k]) ==> jarHas[respH(c)][key[k]] && attrExpired(jarAttr[respH(c)][key[k]]))
+//@     invariant expired-so-far: forall(k, 0, rangeindex + 1, cleanValue(key[k]) ==> jarHas[respH(c)][key[k]] && attrExpired(jarAttr[respH(c)][key[k]]))
+//@   ensures named-cookies-expired: forall(k, 0, len(key), cleanValue(key[k]) ==> jarHas[respH(c)][key[k]] && attrExpired(jarAttr[respH(c)][key[k]]))
 
 // processFlashMessages: nothing to send => the response is not touched; otherwise the whole list is
 // encoded (cannot fail) and sent as ONE session-only cookie named fiber_flash whose value is the encoding.
